@@ -154,6 +154,19 @@ OldPrep(t) ==
 OldQuote(t) == IF MultiLine(t) THEN <<SQ, SQ, SQ, LF>> \o OldPrep(t) \o <<SQ, SQ, SQ>> ELSE <<SQ>> \o OldPrep(t) \o <<SQ>>
 
 (***************************************************************************)
+(* SQL: a note becomes the body of a single-quoted literal: every single   *)
+(* quote is replaced by a double quote and a backslash-newline (DBML line  *)
+(* continuation) is removed (renderer/sql/default/note.py)                 *)
+(***************************************************************************)
+RECURSIVE SqlNote(_)
+SqlNote(t) ==
+  IF t = <<>> THEN <<>>
+  ELSE IF Len(t) >= 2 /\ t[1] = BS /\ t[2] = LF THEN SqlNote(SubSeq(t, 3, Len(t)))
+  ELSE IF Head(t) = SQ THEN <<DQ>> \o SqlNote(Tail(t))
+  ELSE <<Head(t)>> \o SqlNote(Tail(t))
+SqlNeutral(body) == \A i \in DOMAIN body : body[i] # SQ
+
+(***************************************************************************)
 (* Properties                                                              *)
 (***************************************************************************)
 Good(t) == [ok |-> TRUE, text |-> t, rest |-> <<>>]
@@ -163,5 +176,6 @@ NormIdempotent(t) == HasInk(t) => (HasInk(Norm(t)) /\ Norm(Norm(t)) = Norm(t))
 QuoteExact(t) == ~MultiLine(t) => Lex(StyleOf(Quote(t)), Quote(t)) = Good(t)
 QuoteNote(t) == (HasInk(t) /\ Norm(t) = t) =>
                    LET r == Lex(StyleOf(Quote(t)), Quote(t)) IN r.ok /\ r.rest = <<>> /\ HasInk(r.text) /\ Norm(r.text) = t
+SqlLiteralNeutral(t) == SqlNeutral(SqlNote(t))
 NoteOptionExact(t) == Lex(StyleOf(NoteOption(t)), NoteOption(t)) = Good(t)
 =============================================================================
